@@ -250,6 +250,29 @@ func termFromModel(s *Sx, t types.Type) (*Term, error) {
 		return arr, nil
 	case *types.Slice:
 		return sliceFromModel(s, u.Elem(), SortOf(t))
+	case *types.Interface:
+		is := SortOf(t)
+		if ucs := unionCases[is]; ucs != nil {
+			head := s
+			if s.IsL && len(s.List) > 0 {
+				head = s.List[0]
+				if head.IsL && len(head.List) == 3 && head.List[0].Atom == "as" {
+					head = head.List[1]
+				}
+			}
+			for _, uc := range ucs {
+				if strings.Trim(quoteSym(uc.Ctor.Name), "|") == head.Atom && s.IsL && len(s.List) == 2 {
+					v, err := termFromModel(s.List[1], uc.Elem)
+					if err != nil {
+						return nil, err
+					}
+					return MkCtor(uc.Ctor, v), nil
+				}
+			}
+			return MkCtor(is.Ctors[0]), nil
+		}
+		// abstract interface value: replayed as nil
+		return Sym("abstract-iface:"+is.Name, is), nil
 	case *types.Pointer:
 		ps := SortOf(t)
 		if !s.IsL {
